@@ -37,6 +37,28 @@ func (c *Clause) HasProp(p string) bool {
 	return false
 }
 
+// ModClause is one `modifies` clause (object-level frame).
+type ModClause struct {
+	Props   []string
+	Profile string
+	Exprs   []Expr // empty = modifies nothing
+	Text    string
+}
+
+// Mod returns the modifies clause applicable under the given profile.
+func (fc *FuncContract) Mod(profile string) *ModClause {
+	var generic *ModClause
+	for _, m := range fc.Mods {
+		if m.Profile == profile && profile != "" {
+			return m
+		}
+		if m.Profile == "" {
+			generic = m
+		}
+	}
+	return generic
+}
+
 type LoopContract struct {
 	Invariants  []*Clause
 	Decreases   *Clause
@@ -59,11 +81,7 @@ type FuncContract struct {
 	Requires []*Clause
 	Ensures  []*Clause
 
-	HasModifies bool
-	Modifies    []Expr // empty + HasModifies = modifies nothing
-	ModText     string
-	ModProps    []string
-	ModProfile  string
+	Mods []*ModClause
 
 	Loops    map[int]*LoopContract
 	Inline   bool
@@ -113,8 +131,13 @@ func (fc *FuncContract) Mentions(prop string) bool {
 		}
 		return false
 	}
-	if has(fc.Safety) || has(fc.ModProps) {
+	if has(fc.Safety) {
 		return true
+	}
+	for _, m := range fc.Mods {
+		if has(m.Props) {
+			return true
+		}
 	}
 	for _, c := range fc.Requires {
 		if has(c.Props) {
@@ -419,19 +442,17 @@ func (cs *ContractSet) addClause(fc *FuncContract, t, file string, line int) err
 		}
 	case "modifies":
 		props, profile, r := parseTags(rest)
-		fc.HasModifies = true
-		fc.ModProps = props
-		fc.ModProfile = profile
-		fc.ModText = r
+		mc := &ModClause{Props: props, Profile: profile, Text: r}
 		if strings.TrimSpace(r) != "nothing" {
 			for _, part := range splitTop(r, ',') {
 				ex, err := ParseExpr(part)
 				if err != nil {
 					return fmt.Errorf("%s:%d: %v", file, line, err)
 				}
-				fc.Modifies = append(fc.Modifies, ex)
+				mc.Exprs = append(mc.Exprs, ex)
 			}
 		}
+		fc.Mods = append(fc.Mods, mc)
 	case "loop":
 		parts := strings.SplitN(rest, " ", 3)
 		if len(parts) < 3 {
